@@ -9,7 +9,7 @@ from .. import core, engprop as E, gen
 from .. import indicators as X
 from .C01 import cfg_key
 
-DEGENERATE = ["flat", "flat", "up", "down", "eqclose", "tiny", "zero_vol", "mixed", "walk"]
+DEGENERATE = ["flat", "flat", "up", "down", "eqclose", "tiny", "zero_vol", "mixed", "walk", "micro", "micro"]
 
 
 def fields(kind: str, reading) -> Dict[str, object]:
